@@ -157,6 +157,9 @@ def gen_history(streams, tier, profile):
                             # in a running process does not reach it (the cone model has no notion of that)
             kind = cur["vars"][v]["kind"]
             op = {"op": "mutate", "var": v, "value": hrng.choice(gen.VAR_VALUES[kind]), "inplace": hrng.random() < 0.5}
+            partner = gen.nested_partner(cur["vars"][v]["value"])
+            if partner is not None and hrng.random() < 0.6:
+                op.update({"value": partner, "inplace": True})      # an update inside a nested container, in place
             pr = proc()
             if pr:
                 op["proc"] = pr
@@ -168,6 +171,8 @@ def gen_history(streams, tier, profile):
     loads_after()
     if two and feat.get("loads") and hrng.random() < 0.6:
         _coherence_pattern(cur, ops, hrng, gen)
+    elif two and profile.get("p_load_after") and hrng.random() < 0.5:
+        _driver_coherence_pattern(cur, ops, hrng, gen)
     loc = cfg.choice(profile.get("locations", ["package"]))
     case = {"prog": prog, "feat": feat, "store": store, "ops": ops, "options": [], "location": loc}
     if loc == "notebook":
@@ -230,6 +235,31 @@ def _coherence_pattern(cur, ops, hrng, gen):
             {"op": "eval", "entry": e, "style": "eval"},
             {"op": "eval", "entry": r, "style": "eval", "proc": 1},
             {"op": "load", "path": path, "fresh": False, "file": False, "proc": 1}]
+
+
+def _driver_coherence_pattern(cur, ops, hrng, gen):
+    """The long-running process produces a path, the main process re-produces it from edited code, the long-running
+    process then reads it back with a driver-level dds.load."""
+    from .cone import Cones
+
+    prods = Cones(cur).producers()
+    ents = gen.entries(cur)
+    cands = []
+    for e in ents:
+        reach = gen.reachable(cur, e)
+        for pth, prod in sorted(prods.items()):
+            if prod[1] in reach:
+                target = prod[1] if prod[0] == "data" else cur["funcs"][prod[1]]["body"][prod[2]]["f"]
+                cands.append((e, pth, target))
+    if not cands:
+        return
+    e, pth, target = hrng.choice(cands)
+    ops += [{"op": "eval", "entry": e, "style": "eval", "proc": 1},
+            {"op": "load", "path": pth, "fresh": False, "file": False, "proc": 1},
+            {"op": "edit", "edit": {"kind": "ver", "f": target}},
+            {"op": "restart"},
+            {"op": "eval", "entry": e, "style": "eval"},
+            {"op": "load", "path": pth, "fresh": False, "file": True, "proc": 1}]
 
 
 def shrink_history(case):
